@@ -29,6 +29,10 @@ def lookup(it, path, fnref):
         st = fnref.get("self_ty")
         if st is not None and it.ty(st)["t"] in ("param", "alias"):
             return PREFIX_ORACLE.get(name)
+    # `next` of a std iterator type (vec::IntoIter, slice::Iter, option::IntoIter, Chain, Map, Rev ...) resolved to its impl:
+    # the interpreter represents all of them by one finite / unknown iterator value
+    if path.endswith(" as std::iter::Iterator>::next") and path.startswith(("<std::", "<core::", "<alloc::")):
+        return MODELS.get("std::iter::Iterator::next")
     return None
 
 
@@ -451,6 +455,13 @@ def iter_map(it, args, n, f):
 @model("std::iter::Iterator::collect", "<std::vec::Vec<T> as std::iter::FromIterator<T>>::from_iter",
        doc="vector of the items, in order")
 def iter_collect(it, args, n, f):
+    v = it.val_force(args[0])
+    ts = it.ty(n["ty"])["s"] if n.get("ty") is not None else ""
+    if isinstance(v, StructV) and v.adt != OPTION and not ts.replace("std::vec::", "").startswith("Vec<"):
+        # a whole-collection walker collected into a foreign container (HashMap / HashSet / ...): the sequence as a whole
+        d = walker_desc(it, v)
+        it.emit("collect", src=d)
+        return SymV("collected(%s)" % d)
     src = to_iter(it, args[0])
     return VecV(VecObj(it.fresh("vec"), list(src.items), None))
 
@@ -727,6 +738,16 @@ def opt_unwrap_or(it, args, n, f):
     raise Unrecognised("unwrap_or of %r" % (o,))
 
 
+@model("std::result::Result::<T, E>::map", doc="Ok(f(payload)) / the error unchanged")
+def result_map(it, args, n, f):
+    o = it.val_force(args[0])
+    if isinstance(o, StructV) and o.adt == RESULT:
+        if o.variant == "Ok":
+            return StructV(RESULT, "Ok", {"0": Cell(it.call_value(args[1], [it.force(o.fields["0"])], n), "ok")})
+        return o
+    raise Unrecognised("Result::map of %r" % (o,))
+
+
 @model("std::option::Option::<T>::unwrap_or_default", doc="payload, or the default of the payload type (empty Vec / None / 0 / false)")
 def opt_unwrap_or_default(it, args, n, f):
     o = it.val_force(args[0])
@@ -844,6 +865,36 @@ def partial_eq(it, args, n, f):
         r = it.force(r.cell)
     op = "Ne" if f.get("name") == "ne" else "Eq"
     return it.binop(op, l, r, n)
+
+
+def _ordering_of(it, v):
+    v = it.val_force(v)
+    while isinstance(v, RefV):
+        v = it.force(v.cell)
+    if isinstance(v, StructV) and v.adt == ORDERING:
+        return v.variant
+    raise Unrecognised("expected an Ordering, got %r" % (v,))
+
+
+@model("<std::cmp::Ordering as std::cmp::PartialEq>::eq", "<std::cmp::Ordering as std::cmp::PartialEq>::ne", doc="comparison of two Ordering values")
+def ordering_eq(it, args, n, f):
+    same = _ordering_of(it, args[0]) == _ordering_of(it, args[1])
+    return BoolV(same if f.get("name") != "ne" and not str(f.get("path", "")).endswith("::ne") else not same)
+
+
+@model("std::cmp::Ordering::is_eq", "std::cmp::Ordering::is_ne", "std::cmp::Ordering::is_lt", "std::cmp::Ordering::is_gt", "std::cmp::Ordering::is_le",
+       "std::cmp::Ordering::is_ge", doc="predicates on an Ordering value")
+def ordering_pred(it, args, n, f):
+    v = _ordering_of(it, args[0])
+    name = f.get("name") or str(f.get("path", "")).rsplit("::", 1)[-1]
+    return BoolV({"is_eq": v == "Equal", "is_ne": v != "Equal", "is_lt": v == "Less", "is_gt": v == "Greater",
+                  "is_le": v != "Greater", "is_ge": v != "Less"}[name])
+
+
+@model("std::cmp::Ordering::reverse", doc="Less <-> Greater")
+def ordering_reverse(it, args, n, f):
+    v = _ordering_of(it, args[0])
+    return StructV(ORDERING, {"Less": "Greater", "Greater": "Less", "Equal": "Equal"}[v], {})
 
 
 @model("std::cmp::PartialOrd::gt", "std::cmp::PartialOrd::le", "std::cmp::PartialOrd::ge", doc="ordering of two scalars (relation oracle)")
@@ -967,6 +1018,8 @@ def iter_next(it, args, n, f):
         src = it.force(src.cell)
     if isinstance(src, IterV):
         if src.items:
+            if src.unknown is None:
+                it.finite_tick = True     # the enclosing loop is bounded by this known finite sequence (see e_Loop)
             return some(src.items.pop(0))
         if src.unknown is None:
             return none()
